@@ -264,10 +264,120 @@ theorem typed_varint_value (id v : Nat) (raw : RawTP) (h : (TP.varint id v).raw 
     simp [ha] at h; subst h
     exact ⟨rfl, by simpa using varint_roundtrip v [] bs ha⟩
 
+/-! ## Destination slices and sequences of calls
+
+The statements above are about the bytes an encoder produces. The two blocks below say that these
+bytes are all there is to it: they do not depend on what the destination's backing array held
+beyond `len` (a reused scratch buffer), nor on the runtime's growth policy, and a result the caller
+keeps is not affected by the calls that follow. -/
+
+private theorem goAppend_data (g : Nat → Nat) (s : Slice) (bs : Bytes) :
+    (goAppend g s bs).data = s.data ++ bs := by
+  unfold goAppend; split <;> rfl
+
+private theorem appendEach_data (g : Nat → Nat) (s : Slice) (cs : Bytes) :
+    (appendEach g s cs).data = s.data ++ cs := by
+  induction cs generalizing s with
+  | nil => simp [appendEach]
+  | cons c cs ih => simp [appendEach, ih, goAppend_data]
+
+/-- **`Append(b, x)` is `b ++ enc(x)` whatever lies between `len(b)` and `cap(b)`** and however the
+runtime grows slices: the visible result is a function of `b`'s visible bytes and `x` only. -/
+theorem append_ignores_capacity (g : Nat → Nat) (s : Slice) (x : Nat) :
+    viewOf (sAppend g s x) = prefixed s.data (vAppend x) := by
+  unfold sAppend
+  cases vAppend x with
+  | ok bs => simp [viewOf, prefixed, goAppend_data]
+  | panic => rfl
+
+/-- **`AppendWithLen(b, x, w)` is `b ++ enc_w(x)` whatever lies between `len(b)` and `cap(b)`**: the
+padding bytes of a non-minimal width are written, never taken from the backing array. -/
+theorem withLen_ignores_capacity (g : Nat → Nat) (s : Slice) (x w : Nat) :
+    viewOf (sAppendWithLen g s x w) = prefixed s.data (vAppendWithLen x w) := by
+  unfold sAppendWithLen vAppendWithLen
+  split; · rfl
+  cases vLen x with
+  | panic => rfl
+  | ok l =>
+    simp only
+    split; · exact append_ignores_capacity g s x
+    split; · rfl
+    simp only [viewOf, prefixed, appendEach_data]
+    congr 1
+    by_cases h2 : w = 2
+    · simp [h2, goAppend_data]
+    · by_cases h4 : w = 4
+      · simp [h4, goAppend_data]
+      · by_cases h8 : w = 8
+        · simp [h8, goAppend_data]
+        · simp [h2, h4, h8]
+
+/-- the padded encoding in a dirty scratch buffer: exactly `w` fresh bytes after `b`, decoding to `x`
+(`withLen_width` transported to an arbitrary destination slice). -/
+theorem withLen_any_destination (g : Nat → Nat) (s : Slice) (x w l : Nat) (r : Bytes)
+    (hw : w = 1 ∨ w = 2 ∨ w = 4 ∨ w = 8) (hl : vLen x = .ok l) (hle : l ≤ w) :
+    ∃ t bs, sAppendWithLen g s x w = .ok t ∧ t.data = s.data ++ bs ∧ bs.length = w ∧
+      vRead (bs ++ r) = some (x, r) := by
+  obtain ⟨bs, hbs, hlen, hrd⟩ := withLen_width x w l r hw hl hle
+  have h := withLen_ignores_capacity g s x w
+  rw [hbs] at h
+  cases ht : sAppendWithLen g s x w with
+  | panic => rw [ht] at h; simp [viewOf, prefixed] at h
+  | ok t =>
+    rw [ht] at h
+    simp only [viewOf, prefixed, Res.ok.injEq] at h
+    exact ⟨t, bs, rfl, h, hlen, hrd⟩
+
+/-- `Marshal` built by appending into any destination (the nil slice in the code) yields the
+destination's bytes followed by the pure `marshalTPs` — nothing of the memory it was built in shows. -/
+theorem marshal_ignores_capacity (g : Nat → Nat) (s : Slice) (tps : List RawTP) :
+    viewOf (sMarshal g s tps) = prefixed s.data (marshalTPs tps) := by
+  induction tps generalizing s with
+  | nil => simp [sMarshal, marshalTPs, viewOf, prefixed]
+  | cons tp rest ih =>
+    unfold sMarshal marshalTPs sAppend
+    cases hi : vAppend tp.id with
+    | panic => simp [viewOf, prefixed]
+    | ok ib =>
+      cases hl : vAppend tp.value.length with
+      | panic => simp [viewOf, prefixed]
+      | ok lb =>
+        simp only
+        rw [ih]
+        cases hr : marshalTPs rest with
+        | panic => simp [prefixed]
+        | ok rb => simp [prefixed, goAppend_data]
+
+/-- **A held result is independent of later calls**: for every sequence of parameter lists marshalled
+one after the other, each result — looked at after all of them were produced — parses back to its
+own list. (`Marshal` returns a value; a change that makes results share storage breaks the tie to
+this statement, which the `tps_seq` monitor evaluates on the real slices.) -/
+theorem tps_seq_roundtrip (ls : List (List RawTP)) (rs : List Bytes) (h : marshalSeq ls = .ok rs) :
+    rs.map parseTPs = ls.map some := by
+  induction ls generalizing rs with
+  | nil => simp [marshalSeq] at h; subst h; rfl
+  | cons l ls ih =>
+    unfold marshalSeq at h
+    cases hm : marshalTPs l with
+    | panic => simp [hm] at h
+    | ok bs =>
+      cases hr : marshalSeq ls with
+      | panic => simp [hm, hr] at h
+      | ok rest =>
+        simp [hm, hr] at h
+        subst h
+        simp [tps_roundtrip l bs hm, ih rest hr]
+
 /-! Non-vacuity: concrete non-trivial instances of the hypotheses. -/
 example : vAppend 16384 = .ok [0x80, 0x00, 0x40, 0x00] := by decide
 example : vAppendWithLen 37 4 = .ok [0x80, 0, 0, 37] := by decide
 example : marshalTPs [⟨0x2ab2, []⟩, ⟨1, [0x40, 0x64]⟩] = .ok [0x6a, 0xb2, 0, 1, 2, 0x40, 0x64] := by decide
 example : parseTPs [0x6a, 0xb2, 0, 1, 2, 0x40, 0x64] = some [⟨0x2ab2, []⟩, ⟨1, [0x40, 0x64]⟩] := by decide
+-- a scratch buffer that held a longer encoding and was reset with b = b[:0]: the padding is written
+example : sAppendWithLen (fun _ => 0) ⟨[], [0xc0, 0xff, 0xff, 0xff, 0xff, 0xff, 0xff, 0xff]⟩ 0 4
+    = .ok ⟨[0x80, 0, 0, 0], [0xff, 0xff, 0xff, 0xff]⟩ := by decide
+-- too little spare capacity: the runtime moves to a fresh array
+example : sAppendWithLen (fun n => 2 * n) ⟨[7], [0xff]⟩ 37 2 = .ok ⟨[7, 0x40, 37], List.replicate 6 0⟩ := by decide
+example : marshalSeq [[⟨1, [0x40, 0x64]⟩], [⟨0x2ab2, []⟩]] = .ok [[1, 2, 0x40, 0x64], [0x6a, 0xb2, 0]] := by decide
 
 end C24
